@@ -9,6 +9,8 @@ CONSTANTS
   MixedTerm = FALSE
   Finding1 = FALSE
   Finding2 = FALSE
+  Finding3 = FALSE
+  Finding4 = FALSE
 INVARIANT TypeOK
 INVARIANT NothingBeforeTheEnd
 INVARIANT RejectedStoresNothing
